@@ -4,7 +4,7 @@ import vlib, histlib, arenalib
 
 def run(res, tier, seed, replay):
     res.cov["rule"] = ("real (the library's own allocator against the real kernel, mmap/munmap interposed, forked children): synthetic targets with the +-128 MiB window left empty, reserved completely (installation must panic 'Failed to allocate JIT memory' "
-                       "with the function's bytes untouched and no mapping left), or reserved except ONE free page at a random offset / at the lowest / at the highest acceptable address / at exactly +-128 MiB of a page-aligned target (just outside: must fail cleanly); targets below 128 MiB (window clipped at zero); a second installation "
+                       "with the function's bytes untouched and no mapping left), or reserved except ONE free page at a random offset / at the lowest / at the highest acceptable address / at exactly +-128 MiB of a page-aligned target (just outside: must fail cleanly); targets below 128 MiB (window clipped at zero), also with every page up to +128 MiB taken and free pages beyond (must fail cleanly); a second installation "
                        "when the only page is taken; forced booleans on functions terabytes apart (each needs its own trampoline within reach); scripted kernels: always MAP_FAILED; every hint ignored and answered with one block that is a multiple of 4 GiB plus 4 MiB away from the function (near modulo 2^32, out of reach in fact). Monitors: exactly one mapping kept per completed installation and within +-128 MiB, every rejected placement "
                        "munmapped, nothing mapped and nothing written after a failed installation; the extracted allocation loop runs on the observed kernel answers and must produce the same mmap/munmap sequence (hints included); distinct = distinct (mode, outcome)")
     res.cov["trusted_base"] = vlib.TRUSTED_COMMON + ["harness/real interposers and window reservation (PROT_NONE, MAP_FIXED_NOREPLACE)", "Linux mmap hint semantics are NOT assumed: the kernel's answers are inputs of the model"]
@@ -13,7 +13,7 @@ def run(res, tier, seed, replay):
     ok, out = vlib.build_extract()
     if not ok: res.broke("extraction of the model failed", out); return
     r = random.Random(seed + 11)
-    modes = ["empty", "empty", "full", "full", "hole", "hole", "hole", "hole_lo", "hole_lo", "hole_hi", "hole_hi", "low", "low", "low", "straddle", "hole_plusR", "hole_minusR"]
+    modes = ["empty", "empty", "full", "full", "hole", "hole", "hole", "hole_lo", "hole_lo", "hole_hi", "hole_hi", "low", "low", "low", "low_full", "low_full", "straddle", "hole_plusR", "hole_minusR"]
     if tier == "thorough": modes = modes * 40
     cases = [arenalib.gen(r, f"a{i}", mode=m) for i, m in enumerate(modes)]
     # scripted kernels on Rust targets
